@@ -255,10 +255,11 @@ func (v *VecDense) SetRawVector(a blas64.Vector) {
 // returns the number of elements it copied.
 func (v *VecDense) CopyVec(a Vector) int {
 	n := min(v.Len(), a.Len())
-	if v == a {
+	aU, _ := untransposeExtract(a)
+	if v == aU {
 		return n
 	}
-	if r, ok := a.(RawVectorer); ok {
+	if r, ok := aU.(RawVectorer); ok {
 		src := r.RawVector()
 		src.N = n
 		dst := v.mat
@@ -316,7 +317,8 @@ func (v *VecDense) Norm(norm float64) float64 {
 func (v *VecDense) ScaleVec(alpha float64, a Vector) {
 	n := a.Len()
 
-	if v == a {
+	aU, _ := untransposeExtract(a)
+	if v == aU {
 		if v.mat.Inc == 1 {
 			f64.ScalUnitary(alpha, v.mat.Data[:n])
 			return
@@ -327,7 +329,7 @@ func (v *VecDense) ScaleVec(alpha float64, a Vector) {
 
 	v.reuseAsNonZeroed(n)
 
-	if rv, ok := a.(RawVectorer); ok {
+	if rv, ok := aU.(RawVectorer); ok {
 		mat := rv.RawVector()
 		v.checkOverlap(mat)
 		if v.mat.Inc == 1 && mat.Inc == 1 {
